@@ -63,7 +63,7 @@ def project(g):
             "terms": sorted(tt(t) for t in g.terminals), "allv": sorted(allv), "prods": sorted(prods)}
 
 
-def make(prods, vpool="upper", tpool="ab", order=None, declare=False):
+def make(prods, vpool="upper", tpool="ab", order=None, declare=False, nostart=False):
     """prods: list of [head, [body]] over abstract names S,A,B / a,b.  Returns (cfg, tagged start, tagged prods).
     declare=True passes the whole variable and terminal pools to the constructor (declared but possibly unused symbols)."""
     vm, tm = VAR_POOLS[vpool], TERM_POOLS[tpool]
@@ -75,6 +75,9 @@ def make(prods, vpool="upper", tpool="ab", order=None, declare=False):
         tagged.append([vt(vm[h]), [vt(vm[x]) if x in vm else tt(tm[x]) for x in b]])
     if order:
         plist = [plist[i] for i in order]
+    if nostart:     # a grammar object without start symbol (the constructor's default): it generates nothing
+        g = CFG(productions=set(plist))
+        return g, "none", tagged
     if declare:
         g = CFG(variables={Variable(v) for v in vm.values()}, terminals={Terminal(t) for t in tm.values()},
                 start_symbol=Variable(vm["S"]), productions=set(plist))
